@@ -119,6 +119,14 @@ func (p *PKI) Issue(class, name string) *Ident {
 	return id
 }
 
+// IssueRawName makes a valid chain whose leaf carries the label as a RAW name instead of a DNS name.
+func (p *PKI) IssueRawName(label string) *Ident {
+	k := keys.GenerateNewX25519KeyPair()
+	leaf, err := certs.IssueLeaf(p.TInter, certs.LeafIdentity(k, certs.RawStringName(label)))
+	must(err)
+	return &Ident{Class: "valid-rawname", Leaf: leaf, Inter: p.TInter, Key: k, Owns: true}
+}
+
 // Impostor presents victim's certificates but holds a fresh, different key.
 func Impostor(victim *Ident) *Ident {
 	return &Ident{Class: "impostor(" + victim.Class + ")", Leaf: victim.Leaf, Inter: victim.Inter, Key: keys.GenerateNewX25519KeyPair(), Owns: false}
